@@ -48,25 +48,8 @@ theorem ite_xor (c : Prop) [Decidable c] (r x : UInt64) :
 theorem natCast_ne_zero (n : Nat) : ((n : Int) ≠ Rs.NO_SQUARE) ↔ (n != 0) = true := by
   unfold Rs.NO_SQUARE; simp
 
-/-- folding `field b MASK SHIFT` back into the model's `decode b` -/
-theorem fold_decode (b : UInt64) :
-    field b pieceMovedMask pieceMovedShift = (decode b).pieceMoved ∧
-    field b pieceAttackedMask pieceAttackedShift = (decode b).pieceAttacked ∧
-    (field b selfLostKingMask selfLostKingShift != 0) = (decode b).selfLostKing ∧
-    (field b selfLostQueenMask selfLostQueenShift != 0) = (decode b).selfLostQueen ∧
-    (field b oppLostKingMask oppLostKingShift != 0) = (decode b).oppLostKing ∧
-    (field b oppLostQueenMask oppLostQueenShift != 0) = (decode b).oppLostQueen ∧
-    (field b castleMoveMask castleMoveShift != 0) = (decode b).castle ∧
-    (field b enPassantAttackMask enPassantAttackShift != 0) = (decode b).enPassant ∧
-    field b sourceSquareMask sourceSquareShift = (decode b).source ∧
-    field b targetSquareMask targetSquareShift = (decode b).target ∧
-    (field b halfmoveResetMask halfmoveResetShift != 0) = (decode b).halfmoveReset ∧
-    field b previousHalfmoveMask previousHalfmoveShift = (decode b).prevHalfmove ∧
-    field b previousEnPassantMask previousEnPassantShift = (decode b).prevEp ∧
-    field b nextEnPassantMask nextEnPassantShift = (decode b).nextEp ∧
-    field b promotionPieceMask promotionPieceShift = (decode b).promotion ∧
-    field b sideToMoveMask sideToMoveShift = (decode b).side :=
-  ⟨rfl, rfl, rfl, rfl, rfl, rfl, rfl, rfl, rfl, rfl, rfl, rfl, rfl, rfl, rfl, rfl⟩
+/-! (`fold_decode`, folding `field b MASK SHIFT` back into the model's `decode b`, lives in `MoveBits.lean`: it is shared with
+`Make.lean` / `Unmake.lean`, which must not depend on this file) -/
 
 theorem rs_zobrist_xor_eq (b : UInt64)
     (hC : (decode b).castle = true → castleRook (decode b).target ≠ none)
@@ -165,5 +148,9 @@ example : (decode 0x4841002).castle = false ∧ (decode 0x4841002).enPassant = f
 example : Rs.Bitboard.zobrist_xor 0x4841002 Zobrist.blackToMove zCastleF zEnPassantF zPieceSquareF =
     some (Zobrist.xorOf (decode 0x4841002)) := rs_zobrist_xor_eq _ (by decide) (by decide)
 example : Rs.Bitboard.zobrist_xor 0x406 7 (fun _ _ => 1) (fun _ => 2) (fun _ _ _ => 3) = none := by decide
+
+/-! axiom audit of the remaining `rs_*` theorems of this file -/
+#print axioms rs_opposite_color_eq
+#print axioms rs_zobrist_xor_move
 
 end Inkayaku.Translated
